@@ -212,7 +212,7 @@ def oracle_units(ck, tier, deep):
         for gname, r in grids.items():
             for direction in ("forward", "inverse"):
                 ref = quiet(abel.direct.direct_transform, f, r=r, direction=direction, backend="python")
-                for unit in (1e-6, 1e-3, 1e3):
+                for unit in (1e-6, 1e-3, 1e3, 1e-13, 1e-16):
                     ck.count(("S.units", gname, direction, unit), suite="S.linearity")
                     got = quiet(abel.direct.direct_transform, f, r=r * unit, direction=direction, backend="python")
                     want = ref * unit if direction == "forward" else ref / unit
